@@ -378,9 +378,11 @@ func (sql *SqliteDb) ImportMostRecentSnapshot(targetVersion int64, traverseOrder
 		return nil, 0, err
 	}
 
+	// The table names sort as text ("snapshot_7" after "snapshot_10"), so the most recent snapshot
+	// not after the target is found by comparing the version numbers of all of them.
 	var (
 		name    string
-		version int64
+		version int64 = -1
 	)
 	for {
 		ok, err := q.Step()
@@ -388,7 +390,7 @@ func (sql *SqliteDb) ImportMostRecentSnapshot(targetVersion int64, traverseOrder
 			return nil, 0, err
 		}
 		if !ok {
-			return nil, 0, fmt.Errorf("no prior snapshot found version=%d path=%s", targetVersion, sql.opts.Path)
+			break
 		}
 		err = q.Scan(&name)
 		if err != nil {
@@ -398,13 +400,16 @@ func (sql *SqliteDb) ImportMostRecentSnapshot(targetVersion int64, traverseOrder
 		if vs == "" {
 			return nil, 0, fmt.Errorf("unexpected snapshot table name %s", name)
 		}
-		version, err = strconv.ParseInt(vs, 10, 64)
+		v, err := strconv.ParseInt(vs, 10, 64)
 		if err != nil {
 			return nil, 0, err
 		}
-		if version <= targetVersion {
-			break
+		if v <= targetVersion && v > version {
+			version = v
 		}
+	}
+	if version < 0 {
+		return nil, 0, fmt.Errorf("no prior snapshot found version=%d path=%s", targetVersion, sql.opts.Path)
 	}
 
 	root, err := sql.ImportSnapshotFromTable(version, traverseOrder, loadLeaves)
